@@ -261,4 +261,70 @@ def explain_dl(*a):
     return {"layout": LAYOUT, "output": OUTPUT, "source": SOURCE, "requested": req, "before": bf, "after": af, "exit": code, "why": why}
 
 
-EXPLAIN = {"_dl": explain_dl}
+# ------------------------------------------------------------------ download_license: the HTTP status as a variable
+from urllib.error import HTTPError  # noqa: E402
+
+_REAL_DOWNLOAD = dl.download_license
+
+
+def _status_outcome(code):
+    """The real download_license against a urlopen that follows urllib's documented contract:
+    a response object for 2xx, HTTPError (a URLError) for every other final status."""
+
+    class Resp:
+        status = code
+
+        def __enter__(self):
+            return self
+
+        def __exit__(self, *a):
+            return False
+
+        def getcode(self):
+            return code
+
+        def read(self, *a):
+            return b"BODY\n"
+
+    def fake_urlopen(url, *a, **k):
+        if 200 <= code < 300:
+            return Resp()
+        raise HTTPError("http://stub", 404, "refused", None, None)
+
+    saved = dl.urllib.request.urlopen
+    dl.urllib.request.urlopen = fake_urlopen
+    try:
+        try:
+            text = _REAL_DOWNLOAD("MIT")
+        except URLError:
+            return "URLError"
+        except Exception as e:  # noqa
+            return f"escaped:{type(e).__name__}"
+        return "text" if text == "BODY\n" else "other-text"
+    finally:
+        dl.urllib.request.urlopen = saved
+
+
+def _status(code: int) -> bool:
+    """
+    pre: 100 <= code <= 599
+    post: _
+    """
+    out = _status_outcome(code)
+    return out == "text" if code == 200 else out == "URLError"
+
+
+def _status_reach(code: int) -> bool:
+    """
+    pre: 100 <= code <= 599
+    post: False
+    """
+    out = _status_outcome(code)
+    return out == "text" if code == 200 else out == "URLError"
+
+
+def explain_status(code):
+    return {"status": code, "outcome": _status_outcome(code), "why": f"HTTP status {code}: download_license -> {_status_outcome(code)}"}
+
+
+EXPLAIN = {"_dl": explain_dl, "_status": explain_status}
